@@ -268,7 +268,7 @@ static Constraint_System rnd_limit_cs(Rng& r, dimension_type n, const Constraint
     } else {
       Constraint c = rnd_con(r, n, nnc, false);
       if (ex != EX_POLY && c.is_strict_inequality()) continue;
-      { dimension_type i0 = 0, i1 = 0; if (nz_count(c, n, i0, i1) == 0 && !r.chance(1, 30)) continue; }   // constant rows: rarely
+      { dimension_type i0 = 0, i1 = 0; if (nz_count(c, n, i0, i1) == 0 && (ex == EX_BDS || !r.chance(1, 30))) continue; }   // constant rows: rarely; never on BD shapes (KF-C08-1 writes out of bounds: probed in isolation, see probe_const_row)
       cs.insert(c);
     }
   }
@@ -879,7 +879,43 @@ static void run_powerset_grid_chain(long id, Rng& r, dimension_type n) {
 }
 // ---- END MORE ------------------------------------------------------------------------------------
 
+// KF-C08-1 in isolation (own forked child): a supplied constraint without variables
+template <class S> static void probe_const_row(long id, bool cc76) {
+  const dimension_type n = 1;
+  Variable A(0);
+  { OS o; o << "chain " << id << " " << Tr<S>::tag() << " 1 " << (cc76 ? "CC76" : "BHMZ05") << " conv=0 cert=none exact=1 probe=const_row"; jl(o.str()); }
+  S x(1), y(1);
+  x.add_constraint(A <= 2); x.add_constraint(A >= -1);
+  y.add_constraint(A <= 0); y.add_constraint(A >= -1);
+  Constraint_System cs; cs.insert(0 * A >= 1); cs.insert(-2 * A + 7 >= 0);
+  jl("step 0");
+  jl(set_line("Y", y, n)); jl(set_line("Z", x, n));
+  S xl(x), yl(y);
+  OS o; o << "L lim"; put_cs(o, cs, n); o << " | 0 1";
+  jl("run limited " + o.str());
+  try {
+    if (cc76) xl.limited_CC76_extrapolation_assign(yl, cs); else xl.limited_BHMZ05_extrapolation_assign(yl, cs);
+    o << " |"; put_set(o, xl, n); jl(o.str());
+    S res(x), yy(y);
+    jl("run plain");
+    if (cc76) res.CC76_extrapolation_assign(yy); else res.BHMZ05_widening_assign(yy);
+    jl(set_line("R", res, n));
+    jl("endstep");
+    jl("endchain 1 saturated");
+  } catch (...) { jl("exc " + pplv::exc_class()); jl("endchain 0 exc"); }
+}
+
 int main(int argc, char** argv) {
+  long probe = pplv::arg_long(argc, argv, "--probe", -1);
+  if (probe >= 0) {
+    switch (probe) {
+      case 0: probe_const_row<BQ>(900000, true); break;
+      case 1: probe_const_row<BQ>(900001, false); break;
+      case 2: probe_const_row<BD>(900002, true); break;
+      default: probe_const_row<BD>(900003, false); break;
+    }
+    return 0;
+  }
   long seed = pplv::arg_long(argc, argv, "--seed", 1);
   long first = pplv::arg_long(argc, argv, "--first", 0);
   long last = pplv::arg_long(argc, argv, "--last", 40);
@@ -887,7 +923,16 @@ int main(int argc, char** argv) {
   g_limit = pplv::arg_long(argc, argv, "--limit", 200);
   std::string only = pplv::arg_str(argc, argv, "--only", "");
   long nb = (last - first + batch - 1) / batch;
-  return pplv::run_batches(0, nb, [&](long b) {
+  return pplv::run_batches(0, nb + 4, [&](long b) {
+    if (b >= nb) {
+      if (!only.empty() && only != "probe") return;
+      // a fresh process image: the hole is an out-of-bounds access, its effect depends on the heap
+      char k[8]; snprintf(k, sizeof k, "%ld", b - nb);
+      char* const av[] = { (char*)"c08_widen", (char*)"--probe", k, nullptr };
+      fflush(stdout);
+      execv("/proc/self/exe", av);
+      _exit(3);
+    }
     for (long h = first + b * batch; h < std::min(last, first + (b + 1) * batch); ++h) {
       Rng r((uint64_t)seed * 1000003ull + (uint64_t)h);
       unsigned which = (unsigned)(h % 16);
